@@ -154,6 +154,33 @@ def check_client_arguments_not_dropped(ctx):
     ctx.count('client_method_parameters', n_inst, 55)
     ctx.ok('C05.R12', PIE, '%d (method, parameter) pairs of ProxyKmipClient: no configuration-dependent return leaves a supplied argument unread' % n_inst)
 
+
+def check_big_integer_columns(ctx, rule='C05.R13', tail=''):
+    """A field that travels as a KMIP Big Integer (arbitrary precision) is not stored in a fixed-width integer column."""
+    ctx.rule(rule, 'a value that the wire structures carry as primitives.BigInteger (arbitrary precision - e.g. the Prime Field Size of a Split Key) is not stored in a fixed-width integer column (sqlalchemy.Integer / BigInteger / SmallInteger) of the pie object of the same field name: SQLite refuses an integer beyond 64 bits at flush time (OverflowError), so a well-formed Register of such a value is answered with General Failure and the object cannot be stored' + tail)
+    big = {}
+    for rel in ctx.src.modules('kmip/core'):
+        t = ctx.src.tree(rel)
+        for n in ast.walk(t):
+            if isinstance(n, ast.Assign) and len(n.targets) == 1 and is_self_attr(n.targets[0]) and isinstance(n.value, ast.Call) and (call_name(n.value) or '').split('.')[-1] == 'BigInteger':
+                big.setdefault(n.targets[0].attr.lstrip('_'), (rel, n.lineno))
+    ctx.count('wire_big_integer_fields', len(big), 1)
+    pt = ctx.src.tree(PIEOBJ)
+    n_cols = 0
+    for cls in [x for x in ast.walk(pt) if isinstance(x, ast.ClassDef)]:
+        for a in cls.body:
+            if not (isinstance(a, ast.Assign) and len(a.targets) == 1 and isinstance(a.targets[0], ast.Name) and isinstance(a.value, ast.Call) and (call_name(a.value) or '').split('.')[-1] == 'Column'):
+                continue
+            fld = a.targets[0].id.lstrip('_')
+            if fld not in big:
+                continue
+            n_cols += 1
+            types = [dotted(x) or '' for x in a.value.args[1:2]] + [dotted(k.value) or '' for k in a.value.keywords if k.arg == 'type_']
+            fixed = [t_ for t_ in types if t_.split('.')[-1] in ('Integer', 'BigInteger', 'SmallInteger', 'INTEGER', 'BIGINT')]
+            ctx.check(not fixed, rule, '%s.%s|fixed-width column for a Big Integer' % (cls.name, fld), '%s:%s %s' % (PIEOBJ, a.lineno, cls.name),
+                      'column type %s holds any integer' % types, '%s.%s is a %s column, but the field is a KMIP Big Integer on the wire (%s:%s): a value of more than 63 bits cannot be stored' % (cls.name, fld, fixed[0] if fixed else '?', big[fld][0], big[fld][1]))
+    ctx.count('columns_of_big_integer_fields', n_cols, 1)
+
 def run(ctx):
     src = ctx.src
     m = EngineModel(src)
@@ -738,6 +765,7 @@ def run(ctx):
     if not ro:
         ctx.ok('C05.R7', ENGINE, 'no mutation of a loaded object outside the six modifying handlers (%d mutation events)' % n_mut)
     check_client_arguments_not_dropped(ctx)
+    check_big_integer_columns(ctx)
     ctx.not_decided += ['byte fidelity of values through SQLite/SQLAlchemy/TTLV for arbitrary values; restarts on the same database file',
                         'GetAttributes reporting exactly the supplied attributes for arbitrary values']
     ctx.assumptions += ['ROLE alias table (key_value/certificate_value/opaque_data_value <-> value, etc.) transcribes the field roles']
